@@ -193,7 +193,7 @@ mod verif_map {
         kani::assume(n == 1 || n == 3);
         Ok(std::num::NonZeroUsize::new(n).unwrap())
     }
-    // @h name=map_real_constructor_consistent tier=thorough cap=1 timeout=5400 mem=32 weight=2 props=C01,C02,C13
+    // @h name=map_real_constructor_consistent tier=parked cap=1 timeout=5400 mem=32 weight=2 props=C01,C02,C13
     #[kani::proof]
     #[kani::unwind(18)]
     #[kani::stub(std::thread::available_parallelism, stub_cpus)]
